@@ -12,7 +12,9 @@ import (
 	"encoding/base64"
 	"encoding/hex"
 	"encoding/json"
+	"errors"
 	"fmt"
+	"os"
 	"sort"
 	"strconv"
 	"strings"
@@ -87,12 +89,12 @@ var (
 	c17KindsThorough = c17Slots(128, "aes256-gcm96", 16, "ed25519", 15, "chacha20-poly1305", 14, "ecdsa-p256", 11, "aes128-gcm96", 14, "xchacha20-poly1305", 14,
 		"ecdsa-p384", 8, "hmac", 10, "ecdsa-p521", 8, "rsa-2048", 7, "rsa-3072", 2)
 
-	c17ActsEnc = c17Slots(32, "encrypt", 4, "encrypt-batch", 3, "decrypt", 4, "decrypt-batch", 4, "rewrap", 3, "rewrap-batch", 2, "rotate", 4, "config", 3, "trim", 1,
+	c17ActsEnc = c17Slots(32, "fault", 1, "fault-cycle", 1, "encrypt", 3, "encrypt-batch", 3, "decrypt", 3, "decrypt-batch", 4, "rewrap", 3, "rewrap-batch", 2, "rotate", 4, "config", 3, "trim", 1,
 		"read", 1, "reload", 1, "hmac", 1, "hmac-verify", 1)
-	c17ActsSign = c17Slots(32, "sign", 6, "verify", 5, "verify-mut", 6, "rotate", 4, "config", 4, "trim", 1, "read", 1, "reload", 1, "hmac", 2, "hmac-verify", 2)
-	c17ActsBoth = c17Slots(32, "encrypt", 3, "encrypt-batch", 2, "decrypt", 2, "decrypt-batch", 3, "rewrap", 2, "rewrap-batch", 1, "sign", 4, "verify", 3, "verify-mut", 4,
+	c17ActsSign = c17Slots(32, "fault", 1, "fault-cycle", 1, "sign", 5, "verify", 5, "verify-mut", 5, "rotate", 4, "config", 4, "trim", 1, "read", 1, "reload", 1, "hmac", 2, "hmac-verify", 2)
+	c17ActsBoth = c17Slots(32, "fault", 1, "fault-cycle", 1, "encrypt", 3, "encrypt-batch", 2, "decrypt", 2, "decrypt-batch", 3, "rewrap", 2, "rewrap-batch", 1, "sign", 3, "verify", 3, "verify-mut", 3,
 		"rotate", 3, "config", 3, "trim", 1, "reload", 1)
-	c17ActsHMAC = c17Slots(32, "hmac", 8, "hmac-verify", 10, "rotate", 5, "config", 5, "trim", 2, "read", 1, "reload", 1)
+	c17ActsHMAC = c17Slots(32, "fault", 1, "fault-cycle", 1, "hmac", 7, "hmac-verify", 9, "rotate", 5, "config", 5, "trim", 2, "read", 1, "reload", 1)
 )
 
 type c17Model struct {
@@ -135,6 +137,79 @@ type c17API struct {
 	ntCfg      bool
 	ntMut      bool
 	trace      []string
+
+	inner     logical.Storage
+	fs        *c17FaultStorage
+	faultUsed bool
+	faultTag  string
+	dead      bool
+}
+
+type c17Stop struct{}
+
+// c17FaultStorage passes everything through and fails one generated write while armed.
+type c17FaultStorage struct {
+	logical.Storage
+	armed    bool
+	mode     string // "kth", "policy", "archive"
+	k        int
+	writes   int
+	fired    bool
+	firedKey string
+}
+
+func (s *c17FaultStorage) hit(key string) bool {
+	if !s.armed || s.fired {
+		return false
+	}
+	s.writes++
+	switch s.mode {
+	case "kth":
+		if s.writes != s.k {
+			return false
+		}
+	case "policy":
+		if !strings.HasPrefix(key, "policy/") {
+			return false
+		}
+	case "archive":
+		if !strings.HasPrefix(key, "archive/") {
+			return false
+		}
+	}
+	s.fired, s.firedKey = true, key
+	return true
+}
+
+func (s *c17FaultStorage) Put(ctx context.Context, e *logical.StorageEntry) error {
+	if s.hit(e.Key) {
+		return errors.New("verif: injected storage write failure")
+	}
+	return s.Storage.Put(ctx, e)
+}
+
+func (s *c17FaultStorage) Delete(ctx context.Context, key string) error {
+	if s.hit(key) {
+		return errors.New("verif: injected storage delete failure")
+	}
+	return s.Storage.Delete(ctx, key)
+}
+
+func (a *c17API) guard(f func(*rapid.T)) func(*rapid.T) {
+	return func(t *rapid.T) {
+		if a.dead {
+			return
+		}
+		defer func() {
+			if r := recover(); r != nil {
+				if _, ok := r.(c17Stop); ok {
+					return
+				}
+				panic(r)
+			}
+		}()
+		f(t)
+	}
 }
 
 func b64(b []byte) string { return base64.StdEncoding.EncodeToString(b) }
@@ -150,8 +225,25 @@ func (a *c17API) viol(t *rapid.T, sig string, format string, args ...any) {
 		"model": fmt.Sprintf("latest=%d minDec=%d minEnc=%d minAvail=%d", a.m.latest, a.m.minDec, a.m.minEnc, a.m.minAvail),
 		"trace": append([]string(nil), a.trace...),
 	}
-	a.rec.Violation(t, sig, detail, "[%s derived=%v convergent=%v cache_disabled=%v] "+format+"; steps: %s",
-		append(append([]any{a.kind.name, a.derived, a.convergent, a.noCache}, args...), strings.Join(a.trace, " | "))...)
+	if a.faultTag != "" {
+		// everything that goes wrong after an injected write failure is reported under one signature per
+		// (operation, failed write); the underlying signature is kept in the message
+		format = "(" + sig + ") " + format
+		detail["underlying_signature"] = sig
+		sig = a.faultTag
+		for _, k := range strings.Split(os.Getenv("VERIF_C17_TOLERATE"), ",") {
+			if k != "" && "after-fault:"+k == a.faultTag { // diagnostic knob, never set by the driver
+				a.rec.Class("tolerated:"+a.faultTag, 1)
+				a.dead = true
+				panic(c17Stop{})
+			}
+		}
+	}
+	if !a.rec.Violation(t, sig, detail, "[%s derived=%v convergent=%v cache_disabled=%v] "+format+"; steps: %s",
+		append(append([]any{a.kind.name, a.derived, a.convergent, a.noCache}, args...), strings.Join(a.trace, " | "))...) {
+		a.dead = true
+		panic(c17Stop{})
+	}
 }
 
 // c17Res is a normalised response.
@@ -1371,6 +1463,189 @@ func (a *c17API) actHMACVerify(t *rapid.T) {
 	}
 }
 
+// ---------------------------------------------------------------- storage faults
+
+// faulted sends one valid mutating request with one generated write failure armed and then finds out from
+// storage whether the key ring is unchanged or fully changed (next is the model the request aims at).
+func (a *c17API) faulted(t *rapid.T, op, mode string, k int, path string, data map[string]any, next c17Model) {
+	a.faultUsed = true
+	*a.fs = c17FaultStorage{Storage: a.inner, armed: true, mode: mode, k: k}
+	a.step("fault(%s %v,%s,k=%d)", op, data, mode, k)
+	r := a.call(t, logical.UpdateOperation, path, data)
+	a.fs.armed = false
+	a.rec.Class("fault:op:"+op, 1)
+	commit := func() {
+		if next.latest != a.m.latest {
+			a.rotations++
+		}
+		if next.minDec != a.m.minDec || next.minEnc != a.m.minEnc {
+			a.cfgChanges++
+		}
+		a.m = next
+	}
+	if !a.fs.fired {
+		a.rec.Class("fault:not-reached", 1)
+		if !r.ok {
+			a.viol(t, op+"-failed", "%s failed although no write failed: %s", op, r.err)
+		}
+		commit()
+		return
+	}
+	target := "policy"
+	if strings.HasPrefix(a.fs.firedKey, "archive/") {
+		target = "archive"
+	}
+	a.faultTag = "after-fault:" + op + "-" + target
+	a.rec.Class("fault:fired:"+op+"-"+target, 1)
+	a.step("fault-fired(%s write %d, ok=%v)", a.fs.firedKey, a.fs.writes, r.ok)
+	stored, err := keysutil.LoadPolicy(c17Ctx, a.inner, "policy/"+c17Key)
+	if err != nil || stored == nil {
+		a.viol(t, "policy-unloadable", "after the failed %s the stored policy cannot be loaded: %v", op, err)
+		return
+	}
+	obs := c17Model{latest: stored.LatestVersion, minDec: stored.MinDecryptionVersion, minEnc: stored.MinEncryptionVersion, minAvail: stored.MinAvailableVersion, deletionAllowed: stored.DeletionAllowed}
+	switch obs {
+	case a.m:
+		a.rec.Class("fault:rolled-back", 1)
+		if r.ok {
+			a.viol(t, "success-not-persisted", "%s reported success although its write failed and storage is unchanged", op)
+		}
+	case next:
+		a.rec.Class("fault:applied-despite-error", 1)
+		commit()
+	default:
+		a.viol(t, "partial-state", "after the failed %s the stored policy (latest=%d minDec=%d minEnc=%d minAvail=%d) is neither the old nor the intended key ring", op, obs.latest, obs.minDec, obs.minEnc, obs.minAvail)
+	}
+}
+
+func (a *c17API) drawFault(t *rapid.T, table []string) (string, int) {
+	mode := c17Slot(t, "faultMode", table)
+	k := 0
+	if mode == "kth" {
+		k = rapid.IntRange(1, 4).Draw(t, "faultK")
+	}
+	return mode, k
+}
+
+func (a *c17API) rotateCapped() bool { return a.kind.rsaBits > 0 && a.m.latest >= 4 }
+
+func (a *c17API) actFault(t *rapid.T) {
+	m := a.m
+	op := c17Slot(t, "faultOp", []string{"rotate", "rotate", "config", "config", "trim", "trim", "config", "rotate"})
+	if op == "trim" && m.minEnc == 0 {
+		op = "config"
+	}
+	if op == "rotate" && a.rotateCapped() {
+		op = "config"
+	}
+	mode, k := a.drawFault(t, []string{"kth", "kth", "kth", "kth", "policy", "policy", "archive", "archive"})
+	lo := m.minAvail
+	if lo < 1 {
+		lo = 1
+	}
+	next := m
+	switch op {
+	case "rotate":
+		next.latest++
+		a.faulted(t, op, mode, k, "keys/"+c17Key+"/rotate", nil, next)
+	case "config":
+		next.minDec = rapid.IntRange(lo, m.latest).Draw(t, "minDec")
+		next.minEnc = rapid.IntRange(next.minDec, m.latest).Draw(t, "minEnc")
+		a.faulted(t, op, mode, k, "keys/"+c17Key+"/config", map[string]any{"min_decryption_version": next.minDec, "min_encryption_version": next.minEnc}, next)
+	case "trim":
+		hi := m.minDec
+		if m.minEnc < hi {
+			hi = m.minEnc
+		}
+		next.minAvail = rapid.IntRange(lo, hi).Draw(t, "minAvail")
+		a.faulted(t, op, mode, k, "keys/"+c17Key+"/trim", map[string]any{"min_available_version": next.minAvail}, next)
+	}
+}
+
+func (a *c17API) mustConfig(t *rapid.T, dec, enc int) {
+	a.step("config(minDec=%d,minEnc=%d)", dec, enc)
+	if r := a.call(t, logical.UpdateOperation, "keys/"+c17Key+"/config", map[string]any{"min_decryption_version": dec, "min_encryption_version": enc}); !r.ok {
+		a.viol(t, "config-valid-refused", "config min_decryption_version=%d min_encryption_version=%d was refused (latest %d, min_available_version %d): %s", dec, enc, a.m.latest, a.m.minAvail, r.err)
+	}
+	if dec != a.m.minDec || enc != a.m.minEnc {
+		a.cfgChanges++
+	}
+	a.m.minDec, a.m.minEnc = dec, enc
+}
+
+// actFaultCycle: rotation hit by a write failure, retry, material under the new version, one more rotation,
+// min_decryption_version raised above that version and lowered again, reload, then the material must still work.
+func (a *c17API) actFaultCycle(t *rapid.T) {
+	if a.rotateCapped() {
+		a.actConfig(t)
+		return
+	}
+	mode, k := a.drawFault(t, []string{"policy", "policy", "policy", "policy", "kth", "kth", "archive", "policy"})
+	before := a.m.latest
+	next := a.m
+	next.latest++
+	a.faulted(t, "rotate", mode, k, "keys/"+c17Key+"/rotate", nil, next)
+	if a.m.latest == before {
+		a.actRotate(t)
+	}
+	n1 := a.m.latest
+	oldDec, oldEnc := a.m.minDec, a.m.minEnc
+	first := len(a.entries)
+	if a.kind.enc {
+		it := c17EncItem{pt: a.drawPlaintext(t), ctx: a.drawCtx(t), ad: a.drawAD(t)}
+		a.step("encrypt%v", it)
+		r := a.call(t, logical.UpdateOperation, "encrypt/"+c17Key, it.request())
+		errText := r.err
+		if !r.ok && errText == "" {
+			errText = "request failed"
+		}
+		a.checkEncResult(t, "encrypt", it, c17Str(r.data, "ciphertext"), c17Int(r.data, "key_version"), errText)
+	}
+	{
+		msg := a.drawMsg(t)
+		a.step("hmac(latest msg=%x)", msg)
+		r := a.call(t, logical.UpdateOperation, "hmac/"+c17Key, map[string]any{"input": b64(msg), "algorithm": "sha2-256"})
+		if !r.ok {
+			a.viol(t, "hmac-failed", "HMAC with valid parameters failed: %s", r.err)
+		}
+		a.entries = append(a.entries, &c17Entry{kind: "hmac", text: c17Str(r.data, "hmac"), ver: n1, pt: msg, hash: "sha2-256", rotAt: a.rotations, cfgAt: a.cfgChanges})
+	}
+	a.actRotate(t)
+	raisedEnc := oldEnc
+	if raisedEnc != 0 && raisedEnc < n1+1 {
+		raisedEnc = n1 + 1
+	}
+	a.mustConfig(t, n1+1, raisedEnc)
+	a.mustConfig(t, oldDec, oldEnc)
+	a.actReload(t)
+	for _, e := range a.entries[first:] {
+		if e.ver != n1 {
+			continue
+		}
+		switch e.kind {
+		case "ct":
+			it := c17DecItem{e: e, mk: "none", text: e.text, ctx: e.ctx, ad: e.ad}
+			a.step("decrypt%v", it)
+			r := a.call(t, logical.UpdateOperation, "decrypt/"+c17Key, it.request())
+			errText := r.err
+			if !r.ok && errText == "" {
+				errText = "request failed"
+			}
+			a.checkDecResult(t, "decrypt", it, c17Str(r.data, "plaintext"), errText)
+		case "hmac":
+			a.step("hmac-verify(none on v%d)", e.ver)
+			r := a.call(t, logical.UpdateOperation, "verify/"+c17Key, map[string]any{"input": b64(e.pt), "hmac": e.text, "hash_algorithm": e.hash})
+			if valid, _ := r.data["valid"].(bool); !valid || !r.ok {
+				a.viol(t, "hmac-verify-rejects-valid", "a version %d HMAC (latest %d, min_decryption_version %d) is rejected: %q", e.ver, a.m.latest, a.m.minDec, r.err)
+			}
+		}
+	}
+	a.rec.Class("fault:cycle-completed", 1)
+	if a.fs.fired {
+		a.rec.Class("fault:cycle-completed-after-fired-fault", 1)
+	}
+}
+
 // ---------------------------------------------------------------- dispatcher and test
 
 func (a *c17API) stepAction(t *rapid.T) {
@@ -1393,6 +1668,13 @@ func (a *c17API) stepAction(t *rapid.T) {
 		return false
 	}
 	switch name {
+	case "fault", "fault-cycle":
+		if a.faultUsed {
+			name = "rotate"
+			if a.rotateCapped() {
+				name = "config"
+			}
+		}
 	case "decrypt", "decrypt-batch", "rewrap", "rewrap-batch":
 		if !has("ct") {
 			name = "encrypt-batch"
@@ -1411,6 +1693,10 @@ func (a *c17API) stepAction(t *rapid.T) {
 		}
 	}
 	switch name {
+	case "fault":
+		a.actFault(t)
+	case "fault-cycle":
+		a.actFaultCycle(t)
 	case "encrypt":
 		a.actEncrypt(t)
 	case "encrypt-batch":
@@ -1484,8 +1770,10 @@ func TestVerif_C17_API(t *testing.T) {
 
 		config := logical.TestBackendConfig()
 		config.Logger = hclog.NewNullLogger()
-		a.st = &logical.InmemStorage{}
-		config.StorageView = a.st
+		a.inner = &logical.InmemStorage{}
+		a.fs = &c17FaultStorage{Storage: a.inner}
+		a.st = a.fs
+		config.StorageView = a.inner
 		if a.noCache {
 			sv := logical.TestSystemView()
 			sv.CachingDisabledVal = true
@@ -1512,7 +1800,11 @@ func TestVerif_C17_API(t *testing.T) {
 		}
 		a.m = c17Model{latest: 1, minDec: 1}
 
-		rt.Repeat(map[string]func(*rapid.T){"": a.checkRead, "step": a.stepAction})
+		rt.Repeat(map[string]func(*rapid.T){"": a.guard(a.checkRead), "step": a.guard(a.stepAction)})
+		if a.dead {
+			rec.Class("known-finding-case", 1)
+			return
+		}
 
 		if a.ntRot {
 			rec.Class("nt:two-rotations-earlier", 1)
